@@ -464,6 +464,9 @@ func Rename(oldname, newname string) error {
 			t.path = np
 		}
 	}
+	if n := len(w.P.Trace); n > 0 {
+		w.P.Trace[n-1].To = np
+	}
 	w.logOp("rename", op, 0, 0, "-> "+w.logName(np))
 	return nil
 }
